@@ -134,6 +134,12 @@ func VerifC15EndBlocker() {
 	params.BurnVoteVeto = rt.Bool("burnVeto")
 	period := 14 * 24 * time.Hour
 	params.VotingPeriod = &period
+	zeroQuorum := rt.Bool("zeroQuorum")
+	if zeroQuorum {
+		params.Quorum = "0"
+	} else {
+		params.Quorum = "0.4"
+	}
 	if err := k.Params.Set(ctx, params); err != nil {
 		panic(err)
 	}
@@ -180,9 +186,10 @@ func VerifC15EndBlocker() {
 	}
 	p1Ended := !p1End.After(now)
 	p2Ended := !p2End.After(now)
-	quorumReached := voterShares >= 40 // default quorum 0.4 of 100 bonded
-	passes := p2Ended && quorumReached && vote == govv1.OptionYes
-	burn2 := p2Ended && ((!quorumReached && params.BurnVoteQuorum) || (quorumReached && vote == govv1.OptionNoWithVeto && params.BurnVoteVeto))
+	quorumReached := zeroQuorum || voterShares >= 40 // quorum 0.4 (or none) of 100 bonded
+	voted := voterShares > 0                         // a voter without stake carries no power
+	passes := p2Ended && quorumReached && voted && vote == govv1.OptionYes
+	burn2 := p2Ended && ((!quorumReached && params.BurnVoteQuorum) || (quorumReached && voted && vote == govv1.OptionNoWithVeto && params.BurnVoteVeto))
 	burn1 := p1Ended && params.BurnProposalDepositPrevote
 	// expected money
 	expA, expB, expSupply, open := wa, wb, supply, sdkmath.ZeroInt()
